@@ -59,10 +59,11 @@ impl QSpec {
             Mode::C07 => {
                 if t.count >= 1 && t.count <= 4 {
                     let want = small_quantile(self.p, &t.first);
-                    let ok = want.accept.iter().any(|w| {
-                        let tol = 2.0 * f64::EPSILON * w.abs().max(est.abs());
-                        (est - w).abs() <= tol
-                    });
+                    let ok = est.is_finite()
+                        && want.accept.iter().any(|w| {
+                            let tol = 2.0 * f64::EPSILON * w.abs();
+                            (est - w).abs() <= tol
+                        });
                     if !ok {
                         let sorted = {
                             let mut s = t.first.clone();
